@@ -118,6 +118,13 @@ def decorate(text, kind, rng):
         text = ssbond_lines(text, close) + text
     elif kind == "ssbond-relabelled":
         text = ssbond_lines(text, close).replace(" A ", " Z ").replace(" B ", " Y ") + text   # header names other chains
+    if kind == "occ0":
+        # occupancy says nothing about where an atom is: a sulfur flagged 0.00 (and every other record 0.50) bonds like any other
+        text = "\n".join((ln[:54] + ("  0.00" if ln[12:16].strip() == "SG" else "  0.50") + ln[60:]) if ln.startswith("ATOM") and len(ln) >= 60 else ln
+                         for ln in text.split("\n"))
+    elif kind == "cut54":
+        # records that end after the coordinates (no occupancy / temperature factor / element)
+        text = "\n".join(ln[:54] if ln.startswith("ATOM") else ln for ln in text.split("\n"))
     if kind in ("cym", "ssbond-subset+cym"):
         cys = cys_records(text)
         pick = set(rng.sample(range(len(cys)), max(1, len(cys) // 2)))
@@ -220,7 +227,7 @@ def run(ctx):
             WITH_H[0] = False
             CYS_POS[0] = 1
             extra = [[], ["--nodebump"], ["--noopt"], ["--nodebump", "--noopt"], ["--drop-water"]][(gi + 2 * oi) % 5]
-            deco = ["plain", "ssbond-subset", "cym", "ssbond-all", "ssbond-subset+cym", "ssbond-relabelled"][(gi + 3 * oi + ctx.seed) % 6]
+            deco = ["plain", "ssbond-subset", "cym", "ssbond-all", "ssbond-subset+cym", "ssbond-relabelled", "occ0", "cut54"][(gi + 3 * oi + ctx.seed) % 8]
             ff = ffs[(gi + oi) % 6]
             if "cym" in deco and ff in ("PEOEPB", "CHARMM"):
                 ff = "AMBER"
